@@ -34,7 +34,7 @@ func init() {
 		spec := &diffSpec{
 			profiles: []*profile{bystanderProfile()}, batchSize: 30, batches: rs.vol(15, 300),
 			fixed: fixed, fixedStyles: true,
-			opts: batchOpts{variants: []string{"o", "s"}},
+			opts: batchOpts{variants: []string{"o", "s"}, tinyTest: true},
 			onlyCalls: true,
 			nontrivial: func(p *Program, r *Record) bool {
 				return p.hasTag("eta-shape") || p.hasTag("closure") || strings.HasPrefix(p.Profile, "shape:")
@@ -83,7 +83,7 @@ func init() {
 		spec := &diffSpec{
 			profiles: []*profile{controlFlowProfile(), effectProfile(), scopingProfile(), delegationProfile(), bystanderProfile()}, batchSize: 30, batches: rs.vol(20, 500),
 			fixed: fixed,
-			opts:  batchOpts{needU: true},
+			opts:  batchOpts{needU: true, tinyTest: true},
 			noTraceOwner: true,
 			// only failures the optimiser is responsible for (onCompileFail below) are C07's
 			casualtiesOK: true,
